@@ -3,7 +3,7 @@ from vlib import Suite, zlit, zlist, coqlist, blit
 
 ID = "C03"
 READY = True
-RULE = ("three streams over six switches (NO, NC, NO with timed activation/deactivation events, NC starting active, NO with "
+RULE = ("five streams; timeline/boundary/dispatch/generic over six switches (NO, NC, NO with timed activation/deactivation events, NC starting active, NO with "
         "ignore_window_ms=250, NC with ignore_window_ms=375) of one real machine on the virtual clock, each case "
         "projected on every switch.  timeline: 1/8 s grid; raw/logical reports by name or by number (about half "
         "duplicates), registrations/removals from a small pool of (callback,state,ms) triples through all public "
@@ -19,7 +19,17 @@ RULE = ("three streams over six switches (NO, NC, NO with timed activation/deact
         "deadline / window end (never closer than 50 us; cases where an operation lands within 20 us of a timer are "
         "dropped and counted), hold times 1..1000 ms, late loop in a quarter of them.  The order and the times in "
         "which operations and timers actually ran, and which due timers an operation overtook, are observed and given "
-        "to the model.  non-trivial = at least one real change and one handler/event invocation; distinct by hash")
+        "to the model.  dispatch: grid, structured re-entrancy: 2-5 handlers (timed/untimed, new state/other state, "
+        "duplicates) registered in a known order, scripts of 1-3 of them remove another entry of the same dispatch "
+        "(earlier or later, timed or untimed, same or other state, or themselves), 45% re-register it, then the "
+        "switch changes into the state and stays before/at/after the hold times (timed callbacks run their scripts "
+        "inside the wake-up loop), leaves and returns.  config: a machine config per group of 4 cases (mpf: "
+        "auto_create_switch_events on/off, switch_event_active/inactive and switch_tag_event patterns, 5-9 switches "
+        "with 0-3 shared tags, events_when_activated/deactivated with and without '|time', NC and "
+        "ignore_window_ms 0/250/375 in all combinations), reports only, several switches changing at one instant; "
+        "event handlers for every name any variant of the settings would produce; the model builds the registries "
+        "and event lists from the config and runs the joint multi-switch model.  non-trivial = at least one real "
+        "change and one handler/event invocation; distinct by hash")
 TRUSTED_BASE = [
     "Coq 8.16.1 kernel (coqc), vm_compute for evaluating the model in the correspondence run; no native_compute",
     "axioms: none (every Print Assumptions is 'Closed under the global context')",
@@ -37,7 +47,12 @@ TRUSTED_BASE = [
     ">= 50 us apart)",
     "wait_for_switch is given to the model as its definition: query (only_on_change=False) + registration of a "
     "handler whose script removes it; the handler's invocation is observed through the future",
-    "the direct oracle (trace acceptor written from the property text) in harness/props/c03.py",
+    "hand-written coq/C03/Config.v (Switch._initialize/_create_activation_event at string level: '%' replacement, "
+    "split at '|', time strings '<digits>[ms|s]') and coq/C03/Multi.v (a machine = list of switches sharing the loop; "
+    "proved equal to the product of the one-switch models), tied by the config suite: machines generated from random "
+    "configs, the sorted (time, event name) posts of the whole machine and every switch's final state compared",
+    "the direct oracles in harness/props/c03.py: the trace acceptor written from the property text (four suites) and, "
+    "for the config suite, the expected posts computed outright from the config and the reports",
 ]
 ASSUMPTIONS = [
     "callbacks and event handlers do not report switch changes synchronously (process_switch from inside a switch "
@@ -52,6 +67,9 @@ ASSUMPTIONS = [
     "time): the oracle accepts either answer within 0.51 ms of the threshold, queries at x.5 ms elapsed are not asked",
     "the loop runs a due wake-up before any external operation with a later timestamp unless the case says the loop "
     "is late",
+    "config suite: event/time strings of the forms generated (one '|' at most, '<digits>', '<digits>ms', '<digits>s'), "
+    "distinct tags per switch, debug off (events are posted only when a handler exists: handlers are registered for "
+    "every candidate name)",
 ]
 
 GRID = 125000          # us per grid step (1/8 s)
@@ -192,6 +210,60 @@ def gen_boundary(rng, tier, i):
     case["ops"] = pre + tail
     case["end"] += t
     return case
+
+
+def gen_dispatch(rng, tier, i):
+    """grid stream, structured re-entrancy: several handlers (timed / untimed, for the new state and for the other
+    one, sometimes the same triple twice) are registered on one switch in a known order; the scripts of some of
+    them REMOVE another entry (an earlier or a later one of the same dispatch, timed or untimed, same or other
+    state, or themselves), in 45% followed by registering it again, sometimes registering a new one; the switch
+    then changes into the state and stays there for less than / exactly / longer than the hold times (the timed
+    callbacks run their scripts at the wake-up), leaves and comes back.  The removal therefore happens while the
+    dispatch loop / the wake-up loop is iterating over its snapshot of the entries."""
+    init = [rng.randrange(2) for _ in range(NSW)]
+    sw = rng.randrange(NSW)
+    st = 1 - init[sw]
+    n = rng.randint(2, 5)
+    cbs = rng.sample(range(6), n)
+    ents = []
+    for cb in cbs:
+        ents.append([cb, st if rng.random() < 0.8 else 1 - st, rng.choice([0, 0, 0, 125, 250, 375, 500])])
+    if rng.random() < 0.15:
+        ents.insert(rng.randrange(len(ents) + 1), list(rng.choice(ents)))
+    acts = {}
+    for a in rng.sample(range(len(ents)), rng.randint(1, min(3, len(ents)))):
+        l = []
+        for _ in range(rng.choice([1, 1, 2])):
+            tgt = ents[a] if rng.random() < 0.12 else rng.choice([e for j, e in enumerate(ents) if j != a])
+            l.append(["r"] + tgt)
+            if rng.random() < 0.45:
+                l.append(["a"] + tgt)
+        if rng.random() < 0.2:
+            l.insert(rng.randrange(len(l) + 1), ["a", rng.randrange(6), rng.randrange(2), rng.choice([0, 125, 250])])
+        acts[str(ents[a][0])] = l
+    ops = []
+    t = rng.choice([0, 1])
+    for e in ents:
+        ops.append([t, sw, "add"] + e + [rng.randrange(3)])
+    other = None
+    if rng.random() < 0.3:          # a bystander switch with the same callbacks (fns are per switch)
+        other = rng.choice([x for x in range(NSW) if x != sw])
+        for e in rng.sample(ents, rng.randint(1, len(ents))):
+            ops.append([t, other, "add"] + e + [0])
+    t += rng.choice([0, 1, 2])
+    v = st
+    for k in range(rng.choice([1, 2, 2, 3, 4])):
+        ops.append([t, sw, "rep", 1, v, rng.randrange(2)])
+        if other is not None and rng.random() < 0.5:
+            ops.append([t, other, "rep", 1, rng.randrange(2), 0])
+        if rng.random() < 0.15:
+            ops.append([t, sw, "rep", 1, v, 0])          # duplicate
+        t += rng.choice([0, 1, 2, 3, 4, 5, 9]) if k else rng.choice([1, 2, 3, 4, 5, 5, 9])
+        if rng.random() < 0.2:
+            ops.append([t, sw, rng.choice(["add", "rem"])] + rng.choice(ents) + [0])
+            t += rng.choice([0, 1, 3])
+        v = 1 - v
+    return {"init": init, "acts": acts, "ops": ops, "end": t + rng.choice([1, 5, 9])}
 
 
 NC = {1, 3, 5}
@@ -636,6 +708,332 @@ def _run(st, case):
 
 
 # ------------------------------------------------------------------------------------------------
+# the configuration dimension: machines generated per group of cases (mpf: auto_create_switch_events on/off, custom
+# switch_event_active/inactive and switch_tag_event patterns, 5..9 switches with 0..3 tags, events_when_activated /
+# _deactivated with and without "|time", NC and ignore_window_ms combined); the timeline is reports only
+CFG_GROUP = 4           # cases per generated machine config (one boot, ~0.1 s, per group and worker)
+_CFG = {}
+ACT_PATS = ["%_active", "%_active", "c03on_%", "%_c03hit_%", "c03h_%|250ms"]
+INACT_PATS = ["%_inactive", "%_inactive", "c03off_%", "c03r_%|125"]
+TAG_PATS = ["sw_%", "sw_%", "c03t_%", "%_c03tag"]
+TAGS = ["c03ta", "c03tb", "c03tc", "c03td"]
+EWA = ["c03_ea", "c03_eb", "c03_ec|250ms", "c03_ed|1s", "c03_ee|125", "c03_ef"]
+EWD = ["c03_da", "c03_db|125ms", "c03_ea", "c03_dc", "c03_dd|375MS"]
+
+
+def _gen_machine(rng):
+    mpf = {"auto": int(rng.random() < 0.5), "act": rng.choice(ACT_PATS), "inact": rng.choice(INACT_PATS),
+           "tag": rng.choice(TAG_PATS)}
+    sws = []
+    for k in range(rng.randint(5, 9)):
+        sws.append({"name": "c03s%d" % k, "nc": int(rng.random() < 0.35), "win": rng.choice([0, 0, 0, 250, 375]),
+                    "tags": rng.sample(TAGS, rng.choice([0, 1, 1, 2, 3])),
+                    "ewa": rng.sample(EWA, rng.choice([0, 0, 1, 2])),
+                    "ewd": rng.sample(EWD, rng.choice([0, 0, 1, 2]))})
+    return {"mpf": mpf, "sws": sws}
+
+
+def gen_config(rng, tier, i):
+    if i % CFG_GROUP == 0 or "m" not in _CFG:
+        _CFG["m"] = _gen_machine(rng)
+    m = _CFG["m"]
+    n = len(m["sws"])
+    act = rng.sample(range(n), rng.randint(1, n))
+    ops = []
+    t = rng.choice([0, 1, 2])
+    for _ in range(rng.choice([4, 8, 16, 30] if tier == "quick" else [8, 16, 30, 60])):
+        ops.append([t, rng.choice(act), rng.randrange(2), rng.randrange(2), rng.randrange(2)])
+        t += rng.choice([0, 0, 1, 1, 2, 3, 4, 5, 9])
+    return {"mpf": m["mpf"], "sws": m["sws"], "init": [rng.randrange(2) for _ in range(n)], "ops": ops,
+            "end": t + rng.choice([1, 4, 9])}
+
+
+def _split_ev(e):
+    """'event|time' -> (event, ms); written from the documentation of the config format, not from the code"""
+    if "|" not in e:
+        return e, None
+    n, tm = e.split("|")
+    tm = tm.lower()
+    if tm.endswith("ms"):
+        return n, int(tm[:-2])
+    if tm.endswith("s"):
+        return n, int(tm[:-1]) * 1000
+    return n, int(tm)
+
+
+def _configured(mpf, c, v):
+    """the events the configuration asks switch c to post when it changes to state v"""
+    l = []
+    if mpf["auto"]:
+        l.append((mpf["act"] if v else mpf["inact"]).replace("%", c["name"]))
+    for tag in c["tags"]:
+        b = mpf["tag"].replace("%", tag)
+        l += [b, b + "_active"] if v else [b + "_inactive"]
+    return l + (c["ewa"] if v else c["ewd"])
+
+
+def _all_names(case):
+    """every event name any variant of the machine-wide settings could make these switches post"""
+    names = set()
+    for c in case["sws"]:
+        for auto in (0, 1):
+            for a in ACT_PATS:
+                for b in INACT_PATS:
+                    for tg in TAG_PATS:
+                        for v in (0, 1):
+                            for e in _configured({"auto": auto, "act": a, "inact": b, "tag": tg}, c, v):
+                                names.add(_split_ev(e)[0])
+    return sorted(names)
+
+
+def _cboot(case):
+    from rig import Rig
+    mpf = case["mpf"]
+    sw = {}
+    for i, c in enumerate(case["sws"]):
+        d = {"number": str(i)}
+        if c["nc"]:
+            d["type"] = "NC"
+        if c["win"]:
+            d["ignore_window_ms"] = c["win"]
+        if c["tags"]:
+            d["tags"] = ", ".join(c["tags"])
+        if c["ewa"]:
+            d["events_when_activated"] = ", ".join(c["ewa"])
+        if c["ewd"]:
+            d["events_when_deactivated"] = ", ".join(c["ewd"])
+        sw[c["name"]] = d
+    cfg = {"mpf": {"auto_create_switch_events": bool(mpf["auto"]), "switch_event_active": mpf["act"],
+                   "switch_event_inactive": mpf["inact"], "switch_tag_event": mpf["tag"]}, "switches": sw}
+    r = Rig(cfg).start()
+    m = r.machine
+    if bool(m.config["mpf"]["auto_create_switch_events"]) != bool(mpf["auto"]) or \
+            m.config["mpf"]["switch_tag_event"] != mpf["tag"]:
+        raise RuntimeError("machine did not take the mpf: section of the generated config")
+    st = {"rig": r, "sc": m.switch_controller, "sw": [m.switches[c["name"]] for c in case["sws"]], "trace": None,
+          "t0": 0.0}
+
+    def mk(name):
+        def handler(**kwargs):
+            if st["trace"] is not None:
+                st["trace"].append([_rel(st), name])
+        return handler
+    for name in _all_names(case):
+        m.events.add_handler(name, mk(name))
+    st["pristine"] = [[list(m.switch_controller.registered_switches[s_][0]),
+                       list(m.switch_controller.registered_switches[s_][1])] for s_ in st["sw"]]
+    return st
+
+
+def run_config(case):
+    import json
+    key = json.dumps([case["mpf"], case["sws"]], sort_keys=True)
+    if _R.get("ckey") != key or _R.get("cst") is None:
+        old = _R.get("cst")
+        _R["cst"] = None
+        if old is not None:
+            try:
+                old["rig"].stop()
+            except BaseException:
+                pass
+        _R["cst"] = _cboot(case)
+        _R["ckey"] = key
+    st = _R["cst"]
+    try:
+        return _crun(st, case)
+    except BaseException:
+        _R["cst"] = None
+        raise
+
+
+def _crun(st, case):
+    rig, sc = st["rig"], st["sc"]
+    for i, sw in enumerate(st["sw"]):
+        for h in _wake_handles(st, sw) + _recycle_handles(st, sw):
+            h.cancel()
+        sw._mutes.clear()
+        sw.recycle_clear_time = None
+    sc._active_timed_switches.clear()
+    sc._timed_switch_handler_delay.clear()
+    for i, sw in enumerate(st["sw"]):
+        sc.registered_switches[sw] = [list(st["pristine"][i][0]), list(st["pristine"][i][1])]
+        sw.state = case["init"][i]
+        sw.hw_state = case["init"][i] ^ int(sw.invert)
+        sw.last_change = -100000
+    t0 = float(int(rig.now()) + 2)
+    rig.advance(t0 - rig.now())
+    if rig.now() != t0:
+        rig.loop.set_time(t0)
+    st["t0"] = t0
+    trace = []
+    st["trace"] = trace
+    crashed = None
+    try:
+        for o in case["ops"]:
+            target = t0 + o[0] / 8.0
+            if target > rig.now():
+                rig.advance(target - rig.now())
+            _settle(st)
+            sw = st["sw"][o[1]]
+            if o[4]:
+                sc.process_switch_by_num(sw.hw_switch.number, o[3], sw.platform, logical=bool(o[2]))
+            else:
+                sc.process_switch(sw.name, o[3], logical=bool(o[2]))
+            _settle(st)
+        target = t0 + case["end"] / 8.0
+        if target > rig.now():
+            rig.advance(target - rig.now())
+        _settle(st)
+    except Exception as e:
+        crashed = "%s: %s" % (type(e).__name__, e)
+    st["trace"] = None
+    out = {"posts": trace, "final": [], "crash": crashed, "lc0": int(round((-100000 - t0) * 1e6)),
+           "invert": [int(sw.invert) for sw in st["sw"]], "win": [int(round(sw.recycle_secs * 1000)) for sw in st["sw"]]}
+    for sw in st["sw"]:
+        rc = sorted(_us(st, h.when()) for h in _recycle_handles(st, sw))
+        out["final"].append([int(sw.state), int(sw.hw_state), _us(st, sw.last_change), len(_wake_handles(st, sw)),
+                             rc[0] if rc else -1])
+    if crashed:
+        try:
+            rig.stop()
+        except BaseException:
+            pass
+        _R["cst"] = None
+    return out
+
+
+def _cstr(s):
+    return zlist(list(s.encode()))
+
+
+def coq_config(case, out):
+    if out["crash"]:
+        return None
+    mpf = case["mpf"]
+    M = "(mkM %s %s %s %s)" % (blit(mpf["auto"]), _cstr(mpf["act"]), _cstr(mpf["inact"]), _cstr(mpf["tag"]))
+    sws = []
+    for i, c in enumerate(case["sws"]):
+        C = "(mkC %s %s %s %s %s %s)" % (_cstr(c["name"]), blit(c["nc"]), zlit(c["win"]),
+                                         coqlist(_cstr(x) for x in c["tags"]), coqlist(_cstr(x) for x in c["ewa"]),
+                                         coqlist(_cstr(x) for x in c["ewd"]))
+        sws.append("(%s, %s)" % (C, blit(case["init"][i])))
+    ops = coqlist("(%s, %d%%nat, (@nil (Z * Z)), (OReport %s %s))" % (zlit(o[0] * GRID), o[1], blit(o[2]), blit(o[3]))
+                  for o in case["ops"])
+    rows = sorted([t] + list(n.encode()) for t, n in out["posts"])
+    rows += [[9] + f for f in out["final"]]
+    return "((%s, %s, %s, (%s, %s, %s)), %s)" % (M, coqlist(sws), ops, zlit(out["lc0"]), zlit(case["end"] * GRID),
+                                                 zlit(FUEL), coqlist(zlist(r) for r in rows))
+
+
+HDR_CFG = "From C03 Require Import Model Multi Config.\nDefinition run := crun.\nDefinition out_eqb := cout_eqb.\n"
+
+
+def oracle_config(case, out):
+    """every configured event (name events iff auto_create_switch_events, tag events and events_when_* always) is
+    posted exactly once per real change (untimed: at the change, or per ignore window; 'event|time': time later iff
+    the switch stayed), and nothing else is posted: the expected posts are computed outright from the config and
+    the reports (external delivery: the loop has run every timer due at or before a report before the report)"""
+    fails = []
+    if out["crash"]:
+        return [{"sig": "crash", "what": "the machine raised: %s" % out["crash"][:200]}]
+    mpf = case["mpf"]
+    want = []
+    for i, c in enumerate(case["sws"]):
+        inv, win = c["nc"], c["win"] * 1000
+        state = case["init"][i]
+        raw = state ^ inv
+        lc = None
+        unt = {}
+        tim = {}
+        for v in (0, 1):
+            es = [_split_ev(e) for e in _configured(mpf, c, v)]
+            unt[v] = [n for n, ms in es if ms is None]
+            tim[v] = [(n, ms) for n, ms in es if ms is not None]
+        holds = []          # [due, name]
+        wopen = None        # [end, posted state]
+
+        def close(t):
+            nonlocal wopen
+            if wopen is not None and wopen[0] <= t:
+                if state != wopen[1]:
+                    want.extend([wopen[0], n] for n in unt[state])
+                wopen = None
+        for o in [o for o in case["ops"] if o[1] == i] + [None]:
+            t = (case["end"] if o is None else o[0]) * GRID
+            want.extend(h for h in holds if h[0] <= t)
+            holds = [h for h in holds if h[0] > t]
+            close(t)
+            if o is None:
+                break
+            v = o[3] if o[2] else o[3] ^ inv
+            raw = o[3] ^ inv if o[2] else o[3]
+            if v == state:
+                continue
+            state, lc = v, t
+            holds = [[t + ms * 1000, n] for n, ms in tim[v] if ms > 0]
+            want.extend([t, n] for n, ms in tim[v] if ms == 0)
+            if win:
+                if wopen is None:
+                    wopen = [t + win, v]
+                    want.extend([t, n] for n in unt[v])
+            else:
+                want.extend([t, n] for n in unt[v])
+        st_, hw_, lc_ = out["final"][i][:3]
+        if st_ != state or hw_ != raw:
+            fails.append({"sig": "state-mismatch", "what": "switch %s: state/hw_state %d/%d, last report says %d/%d"
+                          % (c["name"], st_, hw_, state, raw)})
+        if lc is not None and lc_ != lc:
+            fails.append({"sig": "last-change-wrong", "what": "switch %s: last_change %d, real change at %d"
+                          % (c["name"], lc_, lc)})
+    got = sorted([t, n] for t, n in out["posts"])
+    want.sort()
+    if got != want:
+        from collections import Counter
+        cg, cw = Counter(map(tuple, got)), Counter(map(tuple, want))
+        miss = sorted((cw - cg).elements())
+        extra = sorted((cg - cw).elements())
+        if miss:
+            fails.append({"sig": "configured-event-missed",
+                          "what": "configured events not posted (time us, event): %r" % (miss[:4],)})
+        if extra:
+            fails.append({"sig": "configured-event-unexpected",
+                          "what": "events posted that no change/config asks for (time us, event): %r" % (extra[:4],)})
+    return fails
+
+
+def shrink_config(case):
+    ops = case["ops"]
+    for i in range(len(ops)):
+        yield dict(case, ops=ops[:i] + ops[i + 1:])
+    n = len(case["sws"])
+    used = set(o[1] for o in ops)
+    for k in range(n - 1, -1, -1):
+        if k not in used and n > 1:
+            m = lambda j: j if j < k else j - 1
+            yield dict(case, sws=case["sws"][:k] + case["sws"][k + 1:], init=case["init"][:k] + case["init"][k + 1:],
+                       ops=[[o[0], m(o[1])] + o[2:] for o in ops])
+    for k, c in enumerate(case["sws"]):
+        for f in ("tags", "ewa", "ewd"):
+            for j in range(len(c[f])):
+                c2 = dict(c, **{f: c[f][:j] + c[f][j + 1:]})
+                yield dict(case, sws=case["sws"][:k] + [c2] + case["sws"][k + 1:])
+        if c["win"]:
+            yield dict(case, sws=case["sws"][:k] + [dict(c, win=0)] + case["sws"][k + 1:])
+    if ops and case["end"] > ops[-1][0] + 9:
+        yield dict(case, end=ops[-1][0] + 9)
+
+
+def nontrivial_config(case, out):
+    return bool(out["posts"])
+
+
+def describe_config(case):
+    return "auto=%d tags=%d win=%d timed=%d" % (
+        case["mpf"]["auto"], int(any(c["tags"] for c in case["sws"])), int(any(c["win"] for c in case["sws"])),
+        int(any("|" in e for c in case["sws"] for e in c["ewa"] + c["ewd"])))
+
+
+# ------------------------------------------------------------------------------------------------
 # Coq printers
 def _act(a):
     return "(%s %s %s %s)" % ("AAdd" if a[0] == "a" else "ARem", zlit(a[1]), blit(a[2]), zlit(a[3]))
@@ -1076,31 +1474,43 @@ def describe(case):
 
 SUITES = [
     Suite("timeline", gen, run_impl, HDR, coq_case, oracle, shrink, nontrivial,
-          {"quick": 1100, "thorough": 30000}, shard=250, describe=describe, case_timeout=20),
+          {"quick": 850, "thorough": 30000}, shard=250, describe=describe, case_timeout=20),
     Suite("boundary", gen_boundary, run_impl, HDR, coq_case, oracle, shrink, nontrivial,
-          {"quick": 700, "thorough": 15000}, shard=250, describe=describe, case_timeout=20),
+          {"quick": 550, "thorough": 15000}, shard=250, describe=describe, case_timeout=20),
+    Suite("dispatch", gen_dispatch, run_impl, HDR, coq_case, oracle, shrink, nontrivial,
+          {"quick": 240, "thorough": 10000}, shard=150, describe=describe, case_timeout=20),
+    Suite("config", gen_config, run_config, HDR_CFG, coq_config, oracle_config, shrink_config, nontrivial_config,
+          {"quick": 120, "thorough": 4000}, shard=24, describe=describe_config, case_timeout=60),
     Suite("generic", gen_generic, run_impl, HDR, coq_case, oracle, shrink, nontrivial,
-          {"quick": 800, "thorough": 15000}, shard=250, describe=describe, case_timeout=20),
+          {"quick": 640, "thorough": 15000}, shard=250, describe=describe, case_timeout=20),
 ]
 
-LEVEL_TEXT = ("Machine-checked proof (Coq) over an executable model of one switch of SwitchController + Switch device, "
-              "for all event sequences: logical state = last report; duplicates are no-ops; untimed handlers once per "
-              "change; a muted change invokes nothing but drops the pending holds; HISTORY LEVEL: in every reachable state "
-              "every pending timed entry sits under last_change + ms for the current state, exactly one wake-up handle "
-              "exists iff something is pending and it is at the minimum deadline (reachable_invariants, "
-              "wakeup_at_minimum_deadline), a punctual wake-up invokes only entries whose deadline is that instant "
-              "(wakeup_fires_at_deadline), the wake-up lemma (wakeup_invokes_exactly_the_due), and timed_iff_held: for "
-              "every history and every handler with a hold time the invocation times equal those of the hold automaton "
-              "(once per registration at change + ms iff held and still registered; catch-up at the original deadline "
-              "iff ahead; never after removal); ignore-window semantics per step (recycle_semantics_*); no crash in "
-              "_process_active_timed_switches; a removed handler never fires.  The model is tied to the working tree "
-              "by running both on the same generated timelines on every run (grid, boundary/late-loop and "
-              "sub-millisecond streams), and a trace acceptor written from the property text checks every "
-              "implementation trace directly (including wait_for_switch futures and monitors).")
+LEVEL_TEXT = ("Machine-checked proof (Coq, 36 theorems) over an executable model of SwitchController + Switch device, for all "
+              "event sequences: logical state = last report; duplicates are no-ops; untimed handlers once per change "
+              "(also when callbacks remove other handlers: keeps_untimed); a muted change invokes nothing but drops "
+              "the pending holds; HISTORY LEVEL: in every reachable state every pending timed entry sits under "
+              "last_change + ms for the current state, exactly one wake-up handle exists iff something is pending and "
+              "it is at the minimum deadline, a punctual wake-up invokes only entries whose deadline is that instant, "
+              "the wake-up lemma, and timed_iff_held: for every history and every handler with a hold time the "
+              "invocation times equal those of the hold automaton (once per registration at change + ms iff held and "
+              "still registered; catch-up at the original deadline iff ahead; never after removal); a removed handler "
+              "never fires, including removal from inside a callback while the dispatch loop / the wake-up loop is "
+              "iterating over a stale snapshot that still contains it (removed_during_dispatch/wakeup_never_fires); "
+              "ignore window per step (recycle_semantics_*) and at history level (window_last_post_is_state: the last "
+              "post equals the state whenever no window is open); the events a switch posts as a function of its "
+              "configuration (initialize_closed_form: name events iff auto_create_switch_events, tag events always, "
+              "events_when_* always; change_posts_configured_events_once_partial); several switches in one model "
+              "instance = product of the one-switch models (machine_is_product_of_switches); no crash in "
+              "_process_active_timed_switches.  The model is tied to the working tree by running both on the same "
+              "generated timelines on every run (grid, boundary/late-loop, structured re-entrancy, sub-millisecond "
+              "and generated-machine-config streams), and two direct oracles written from the property text check "
+              "every implementation trace (including wait_for_switch futures, monitors and configured events).")
 LEVEL_NOTE = ("Trusted: Coq kernel + vm_compute; no axioms. Hand-written model validated differentially against the real "
               "machine on the virtual clock; asyncio/TimeTravelLoop timer semantics modelled as 'earliest pending timer "
               "first, before any operation at the same or a later instant, except the timers an operation was observed "
-              "to overtake'.  The history-level ignore-window statement and a joint model of several switches are not "
-              "proved (per-step theorems, correspondence per switch with shared late-loop events, oracle).")
+              "to overtake'.  Partial theorems: untimed/timed per-change statements carry guards on what callbacks "
+              "remove (the removed handlers are covered by the removal theorems); the configured-events theorem is per "
+              "change for switches without ignore window (with a window: the window theorems); Config.v covers the "
+              "time-string forms '<digits>[ms|s]' only.")
 TECHNIQUE = "Coq proof over hand-written executable model + differential correspondence (vm_compute) + trace-acceptor oracle"
 DESIGN_REF = "DESIGN.md section 3, C03"
